@@ -191,7 +191,7 @@ pub fn run(cfg: &Cfg) -> i32 {
             }
         }
         let strat = text_strategy();
-        engine::pbt(ctx, seedf(1), cfg.per_shard(2_000_000, 20_000_000), &strat, |ctx, t: &String| check_text(ctx, t))?;
+        engine::pbt(ctx, seedf(1), cfg.per_shard(16_000_000, 200_000_000), &strat, |ctx, t: &String| check_text(ctx, t))?;
         Ok(())
     });
     engine::finish(
